@@ -293,6 +293,27 @@ def guarded_by(ctx, f: Func, node: ast.AST, pred: Callable[[ast.AST], Optional[b
     return False
 
 
+_MUTATORS = frozenset("append extend insert pop remove clear sort reverse update add discard setdefault popitem appendleft popleft".split())
+
+
+def _mutated_container(fn: ast.AST, name: str, v: ast.AST) -> bool:
+    """`name` is bound to a fresh mutable container and is modified in place somewhere in fn."""
+    fresh = isinstance(v, (ast.List, ast.Dict, ast.Set, ast.ListComp, ast.DictComp, ast.SetComp)) or (
+        isinstance(v, ast.Call) and isinstance(v.func, (ast.Name, ast.Attribute))
+        and (v.func.id if isinstance(v.func, ast.Name) else v.func.attr) in ("list", "dict", "set", "bytearray", "OrderedDict", "defaultdict", "deque", "Counter"))
+    if not fresh:
+        return False
+    for n in ast.walk(fn):
+        if isinstance(n, ast.Call) and isinstance(n.func, ast.Attribute) and isinstance(n.func.value, ast.Name) and n.func.value.id == name \
+                and n.func.attr in _MUTATORS:
+            return True
+        if isinstance(n, (ast.Subscript,)) and isinstance(n.ctx, (ast.Store, ast.Del)) and isinstance(n.value, ast.Name) and n.value.id == name:
+            return True
+        if isinstance(n, ast.AugAssign) and isinstance(n.target, ast.Name) and n.target.id == name:
+            return True
+    return False
+
+
 def inline(fn: ast.AST, e: ast.AST, depth: int = 0, stop=frozenset()) -> ast.AST:
     """A copy of expression e in which every local that has exactly one definition (a plain expression, not a
     parameter) is replaced by that definition, recursively: `t = h(x); g(t)` is seen as `g(h(x))`."""
@@ -305,6 +326,8 @@ def inline(fn: ast.AST, e: ast.AST, depth: int = 0, stop=frozenset()) -> ast.AST
                 defs = assignments_to(fn, node.id)
                 if len(defs) == 1 and defs[0][1] is not None and isinstance(defs[0][0], (ast.Assign, ast.AnnAssign)):
                     v = defs[0][1]
+                    if _mutated_container(fn, node.id, v):
+                        return node  # `stack = []` that is grown / popped later is not the constant `[]`
                     if not any(isinstance(x, ast.Name) and x.id == node.id for x in ast.walk(v)):
                         return inline(fn, copy.deepcopy(v), depth + 1, stop)
             return node
